@@ -140,10 +140,10 @@ theorem equal_trans
 
 theorem eqCC_symm (a b : Cst) (ha : a.valueOf.noDup = true) (hb : b.valueOf.noDup = true) :
     Impl.eqCC a b = Impl.eqCC b a := by
-  rw [eqCC_iff a b ha hb, eqCC_iff b a hb ha, Value.eqv_symm _ _ ha hb]
+  rw [eqCC_iff a b ha hb, eqCC_iff b a hb ha, Value.eqv_symm_E _ _ ha hb]
 
 theorem eqCC_refl (a : Cst) (ha : a.valueOf.noDup = true) : Impl.eqCC a a = true := by
-  rw [eqCC_iff a a ha ha]; exact Value.eqv_refl _ ha
+  rw [eqCC_iff a a ha ha]; exact Value.eqv_refl_E _ ha
 
 theorem eqCC_trans (a b c : Cst) (ha : a.valueOf.noDup = true) (hb : b.valueOf.noDup = true)
     (hc : c.valueOf.noDup = true) (h1 : Impl.eqCC a b = true) (h2 : Impl.eqCC b c = true) :
@@ -151,14 +151,14 @@ theorem eqCC_trans (a b c : Cst) (ha : a.valueOf.noDup = true) (hb : b.valueOf.n
   rw [eqCC_iff _ _ ha hb] at h1
   rw [eqCC_iff _ _ hb hc] at h2
   rw [eqCC_iff _ _ ha hc]
-  exact Value.eqv_trans _ _ _ h1 h2
+  exact Value.eqv_trans_E _ _ _ h1 h2
 
 theorem equal_symm' (a b : Bytes) (hva : Scanner.valid a = (parseCst a).isSome)
     (hvb : Scanner.valid b = (parseCst b).isSome)
     (hda : ∀ va, parseValueOf a = some va → va.noDup = true)
     (hdb : ∀ vb, parseValueOf b = some vb → vb.noDup = true) :
     Impl.equal a b = Impl.equal b a :=
-  equal_symm Value.eqv_symm a b hva hvb hda hdb
+  equal_symm Value.eqv_symm_E a b hva hvb hda hdb
 
 theorem equal_trans' (a b c : Bytes) (hva : Scanner.valid a = (parseCst a).isSome)
     (hvb : Scanner.valid b = (parseCst b).isSome) (hvc : Scanner.valid c = (parseCst c).isSome)
@@ -166,7 +166,7 @@ theorem equal_trans' (a b c : Bytes) (hva : Scanner.valid a = (parseCst a).isSom
     (hdb : ∀ v, parseValueOf b = some v → v.noDup = true)
     (hdc : ∀ v, parseValueOf c = some v → v.noDup = true)
     (hab : Impl.equal a b = true) (hbc : Impl.equal b c = true) : Impl.equal a c = true :=
-  equal_trans (fun x y z _ _ _ => Value.eqv_trans x y z) a b c hva hvb hvc hda hdb hdc hab hbc
+  equal_trans (fun x y z _ _ _ => Value.eqv_trans_E x y z) a b c hva hvb hvc hda hdb hdc hab hbc
 
 theorem equal_refl (a : Bytes) (hva : Scanner.valid a = true) (ca : Cst) (hp : parseCst a = some ca)
     (hda : ca.valueOf.noDup = true) : Impl.equal a a = true := by
